@@ -685,6 +685,23 @@ class CtxAwareTransformer(NodeTransformer):
         dictionary comprehensions, and generator expressions."""
         return node  # do not descend into any comprehensions
 
+    def _visit_comp(self, node):
+        """Handle visiting a list / set / dict comprehension or a generator
+        expression: the loop variables are in scope while the element
+        expression is visited."""
+        names = set()
+        for gen in node.generators:
+            names |= gather_names(gen.target)
+        self.contexts.append(set(names))
+        self.generic_visit(node)
+        inner = self.contexts.pop()
+        # whatever else was recorded while visiting the element (a walrus
+        # binds in the enclosing scope) stays recorded
+        self.ctxupdate(inner - names)
+        return node
+
+    visit_ListComp = visit_SetComp = visit_GeneratorExp = visit_DictComp = _visit_comp
+
     #
     # Context aggregator visitors
     #
